@@ -627,6 +627,19 @@ func (ex *Exec) evalBin(e *SExpr, env *SpecEnv) (Val, types.Type) {
 			}
 			return r, boolT
 		}
+		// an interface compared with a concrete value: the concrete side is converted
+		if at != nil && bt != nil {
+			ai, bi := types.IsInterface(at), types.IsInterface(bt)
+			if _, isIface := a.(*IfaceV); ai && !bi && isIface {
+				if _, bIsIface := b.(*IfaceV); !bIsIface {
+					b, bt = &IfaceV{Tag: typeTag(bt), Data: box(bt, b)}, at
+				}
+			} else if _, isIface := b.(*IfaceV); bi && !ai && isIface {
+				if _, aIsIface := a.(*IfaceV); !aIsIface {
+					a, at = &IfaceV{Tag: typeTag(at), Data: box(at, a)}, bt
+				}
+			}
+		}
 		r := ex.valEq(at, a, b)
 		if e.Op == "!=" {
 			r = Not(r)
@@ -1029,6 +1042,10 @@ func (ex *Exec) evalGhost(g *GhostDecl, args []*SExpr, env *SpecEnv) (Val, types
 	ts := make([]*Term, len(ls))
 	for i, l := range ls {
 		ts[i] = Select(ex.get(env.cur, "ghost:"+g.Name+l.path, ArrSort(SRef, l.sort)), flatArgs[0])
+		if g.HasRange && bvWidth(l.sort) == 64 && !ts[i].isLit() {
+			ts[i].AddFact(And(BVCmp("bvsle", BVLit(big.NewInt(g.Lo), 64), ts[i]), BVCmp("bvslt", ts[i], BVLit(big.NewInt(g.Hi), 64))))
+			ex.assumes[fmt.Sprintf("every value of ghost %s lies in [%d, %d)", g.Name, g.Lo, g.Hi)] = true
+		}
 	}
 	return unflat(rt, ts), rt
 }
